@@ -2,7 +2,7 @@
 """Regenerates /verif/MANIFEST.json from tools/manifest_entries.json (one entry per claimed property)."""
 import json, os
 V = "/verif"
-entries = json.load(open(f"{V}/tools/manifest_entries.json"))
+entries = {f[:-5]: json.load(open(f"{V}/tools/entries/{f}")) for f in sorted(os.listdir(f"{V}/tools/entries")) if f.endswith(".json")}
 props = [json.loads(l) for l in open(f"{V}/properties.jsonl")]
 checks, na = [], []
 for p in props:
